@@ -79,6 +79,16 @@ def descriptions(tier, rnd):
     out.append(('```\nBREAK = """first  \nsecond\t\nthird \t """\n```\nstart = /[a-z]+/ |> `lambda w: [w, BREAK]`\n', ['ok', '']))
     out.append(('```\nTXT = \'\'\'a \\\n  b\x0c\n\n\n  c\u00e9\u2028d\'\'\'\ndef f(w):\n    return [w, TXT,\n\n            len(TXT)]\n```\nstart = /[a-z]+/ |> `f`\n', ['ok', '']))
     out.append(('```\nR = r"""x\\  \n\ty  """   \nS = "tab\there"\n```\nstart = "a" |> `lambda _: [R, S]`\n', ['a', '']))
+    # bodies nested past the block budget of one generated function (helper functions), with what makes a helper special:
+    # rule references, template calls, literals under ignore, bound names
+    for depth in (9, 12, 19, 24):
+        opt = '"x"'
+        for k in range(depth):
+            opt = f'("{chr(97 + k % 20)}" >> Opt({opt}) << "{chr(97 + k % 20)}")'
+        seq = '[' * depth + 'W, Pair("q"), `n`' + ']' * depth
+        out.append((f'start = {opt}\n', ['', 'aa', 'abba', ''.join(chr(97 + k % 20) for k in reversed(range(depth))) + 'x' + ''.join(chr(97 + k % 20) for k in range(depth)),
+                                          ''.join(chr(97 + k % 20) for k in reversed(range(depth))) + ''.join(chr(97 + k % 20) for k in range(depth)), 'ab']))
+        out.append((f'start = let n = /[0-9]/ in {seq}\nW = /[a-z]/\nPair(x) = [x, x]\nignore " "\n', ['1aqq', '1 a q q', '1a', '', '1aq', 'aqq']))
     # anonymous ignore patterns with and without a header
     out.append(('start = W*\nW = /[a-z]+/\nignore /[ ]+/\nignore /#[a-z]*/\n', ['ab cd', 'ab #x cd', ' ab', 'ab#', '']))
     out.append(('ignore /[ ]+/\nclass K { w: /[a-z]+/ }\nstart = K+\n', ['ab cd', ' ab', 'ab  ', '']))
